@@ -257,7 +257,15 @@ def mutants(tg, parent, rng, tags=('C01', 'C02', 'C05', 'struct'), horizon_env=N
                 good = assemble(env, parent, [cbx], ts, mine=False)
                 alt = assemble(env, parent, [cbx], ts, overrides={'sample_chain': mixed}, mine=False)
                 if bytes(good.header.pow_evidence.serialize()) != bytes(alt.header.pow_evidence.serialize()):
+                    nbefore = len(out)
                     add('evidence-sampled-from-sibling-branch', 'C05', [], ov={'sample_chain': mixed})
+                    if len(out) > nbefore:
+                        # mining changed the nonce, hence which ancestors are sampled: keep the mutant only if its evidence
+                        # still differs from the evidence recomputed from the block's own ancestors
+                        bvx = spec.BlockView(out[-1]['block'])
+                        own = {v.height: v for v in [x.view for x in parent.chain()]}
+                        if spec.evidence(bvx.summary_bytes, bvx.height, own, [t.bytes for t in bvx.txs], env.scrypt) == bvx.evidence:
+                            out.pop()
                     break
             except Exception:
                 pass
